@@ -337,11 +337,28 @@ def shard(member, acc):
     return acc
 
 
+def mixed_keytype_members(tier):
+    """Containers whose key type differs from the schema's (and from the intermediate section's): the key of a
+    specifier must be normalised by the key type of the section it ADDRESSES."""
+    out = []
+    env = M.type_env()
+    for lab, items in M.selections(1, full=(tier != "quick")):
+        if not items or isinstance(items[0], M.Sect):
+            continue
+        for p in (1, 2):
+            for skt, ckt in ((None, "identifier"), ("identifier", None), ("identifier", "vz.harness.dt.lower_key")):
+                S, root = M.place(items, p, env, cut_keytype=ckt, schema_keytype=skt)
+                out.append(("+".join(lab) + "@%d[schema:%s,cut:%s]" % (p, skt, ckt), S, tuple(root), 3, False))
+    return out
+
+
 def run(tier):
-    mem = [m + (tier,) for m in C.members(tier)]
+    mem = [m + (tier,) for m in C.members(tier)] + [m + (tier,) for m in mixed_keytype_members(tier)]
     run = core.Run(
         "C14", tier, "model_checking",
-        rule="seeds = accepted texts of corpus T (reference BFS over the schema family and two rich schemas) with "
+        rule="seeds = accepted texts of corpus T (reference BFS over the schema family, two rich schemas, and every key-like "
+             "item one / two levels down under a key type that differs from the schema's: basic-key vs identifier vs a "
+             "custom lower-casing key type) with "
              ">= 1 section, at most %s per schema; per seed a specifier alphabet derived from its section tree "
              "(every section by name / type / upper case to depth 3 x declared, absent, unknown, wildcard and "
              "key-type-refused keys x convertible / empty / unconvertible / '$' / '=' values, absent sections, "
